@@ -113,3 +113,14 @@ Theorem fit_honours_max_depth : forall W X (ow : NumOps W) (ox : NumOps X) cast 
   fit ow ox cast imp H xs ys ws ncls nfeat = Some t -> h_maxdepth H = Some m -> subtree s t ->
   (tdepth s <= m)%nat.
 Proof. intros W X ow ox cast imp H xs ys ws ncls nfeat t m s. exact (fit_depth_le ow ox cast imp H xs ys ws ncls nfeat t m s). Qed.
+
+(** ... and only ever predicts labels of training rows, for every query, in every arithmetic *)
+Theorem fit_predicts_only_training_labels :
+  forall W X (ow : NumOps W) (ox : NumOps X) cast imp H xs ys ws ncls nfeat t,
+  (forall y, In y ys -> (y < ncls)%nat) -> length ys = length xs -> length ws = length xs -> xs <> [] ->
+  fit ow ox cast imp H xs ys ws ncls nfeat = Some t ->
+  forall le x, In (predict ox le t x) ys.
+Proof.
+  intros W X ow ox cast imp H xs ys ws ncls nfeat t Hy Hl1 Hl2 Hne E le x.
+  exact (fit_predicts_training_label ow ox cast imp H xs ys ws ncls Hy Hl1 Hl2 nfeat t Hne E le x).
+Qed.
